@@ -45,4 +45,9 @@ def kexInitClearsBeforeWrite : Bool := true
 "Remote transport is ignoring rekey requests" -/
 def overflowTests : List (String × String) := [("received_packets_overflow", "REKEY_PACKETS_OVERFLOW_MAX"), ("received_bytes_overflow", "REKEY_BYTES_OVERFLOW_MAX")]
 
+/-- every `clear_to_send.clear()` in transport.py: (function, line, inside a clear_to_send_lock region) -/
+def clearSites : List (String × Nat × Bool) := [("_negotiate_keys", 2376, true), ("_send_kex_init", 2435, true)]
+
+def allClearsUnderLock : Bool := clearSites.all (·.2.2) && !clearSites.isEmpty
+
 end PV.Generated.C11
